@@ -309,6 +309,19 @@ pub fn block(name: &str, c: &AlphaCtx, out: &mut Vec<Op>) {
                 }
             }
         }
+        // a filter that spares / takes exactly one class representative, dropped or forgotten after every prefix
+        "preddrop" => {
+            let reps = c.classes.present_reps();
+            let ps: Vec<u64> = if c.len <= 48 { (0..=len).collect() } else { vec![0, 1, 2, len / 2, len.saturating_sub(1)] };
+            for &r in &reps {
+                for code in [6u64, 7] {
+                    for &pre in &ps {
+                        out.push(Op::new(OpK::DrainFilter, r, iter_arg(code, MODE_DROP_AT, pre)));
+                        out.push(Op::new(OpK::DrainFilter, r, iter_arg(code, MODE_FORGET_AT, pre)));
+                    }
+                }
+            }
+        }
         "cap" => {
             let cap = c.cap as u64;
             let free = cap - len;
